@@ -143,7 +143,16 @@ func (g *c18gen) list() {
 func (g *c18gen) nest() {
 	g.depth++
 	defer func() { g.depth-- }()
-	switch g.r.Intn(5) {
+	k := g.r.Intn(6)
+	if k == 5 && len(g.blocks) == 0 {
+		k = 0
+	}
+	switch k {
+	case 5:
+		// a block defined earlier yielded WITH content (plain text): calls made by its body run below that content
+		g.feat["below-content"] = true
+		b := g.blocks[g.r.Intn(len(g.blocks))]
+		g.both("{{yield " + b + "() content}}K" + g.tok() + "{{end}}")
 	case 0:
 		g.feat["in-if"] = true
 		g.both("{{if true}}")
@@ -247,6 +256,13 @@ func c18run(c *fw.Ctx, idx int) {
 	g := &c18gen{r: r, feat: map[string]bool{}, allowFail: idx%2 == 0}
 	g.files = [2]map[string]string{{}, {}}
 	g.scopes = []map[string]bool{{}}
+	// "cell" blocks that render the content of whoever is being rendered: yielded (from Go or from the template)
+	// inside a block that was itself yielded with content, they show that content
+	for i := 0; i < idx%3; i++ {
+		name := fmt.Sprintf("cell%d", i+1)
+		g.both("{{block " + name + "()}}<" + name + ":{{yield content}}>{{end}}")
+		g.blocks = append(g.blocks, name)
+	}
 	// the syntax twin declares the "globals" up front at the root; generation order fixes their names
 	g.list()
 	for _, gn := range g.globals {
@@ -271,7 +287,7 @@ func c18run(c *fw.Ctx, idx int) {
 	c.Eval(2)
 	c.Count("twins", 1)
 	var feats []string
-	for _, k := range []string{"let-nil", "let", "set", "set-undeclared", "setorlet", "resolve", "context", "yieldblock", "yieldblock-ctx", "letglobal", "in-if", "in-range", "in-block", "in-include", "in-try"} {
+	for _, k := range []string{"let-nil", "let", "set", "set-undeclared", "setorlet", "resolve", "context", "yieldblock", "yieldblock-ctx", "letglobal", "in-if", "in-range", "in-block", "in-include", "in-try", "below-content"} {
 		if g.feat[k] {
 			feats = append(feats, k)
 			c.Count("feature:"+k, 1)
@@ -304,7 +320,8 @@ func c18run(c *fw.Ctx, idx int) {
 
 func c18args(c *fw.Ctx, idx int, r *rand.Rand) {
 	// argument expressions: existing values, a missing identifier (only for IsSet), the piped value
-	exist := []string{`"s1"`, `sv`, `7`, `iv`, `m.k`, `xs[1]`}
+	// (exec("/pipe.jet") evaluates a pipeline of its own while the arguments of the outer call are being read)
+	exist := []string{`"s1"`, `sv`, `7`, `iv`, `m.k`, `xs[1]`, `exec("/pipe.jet")`}
 	n := 1 + r.Intn(3)
 	args := make([]string, n)
 	for i := range args {
@@ -376,7 +393,7 @@ func c18args(c *fw.Ctx, idx int, r *rand.Rand) {
 		return vars
 	}
 	exec := func(src, fn string) jx.Res {
-		return jx.Run(map[string]string{"/t.jet": "{{ " + strings.ReplaceAll(src, "F", fn) + " }}"}, "/t.jet", mk(), nil, jx.NoEscape)
+		return jx.Run(map[string]string{"/t.jet": "{{ " + strings.ReplaceAll(src, "F", fn) + " }}", "/pipe.jet": `{{ "Q" | lower }}{{ return "ret" }}`}, "/t.jet", mk(), nil, jx.NoEscape)
 	}
 	ref := exec(forms["plain"], fmt.Sprintf("R%d", n))
 	if ref.Failed() {
@@ -429,7 +446,7 @@ func c18args(c *fw.Ctx, idx int, r *rand.Rand) {
 		src := args[p] + " | JS(" + strings.Join(w, ", ") + ")"
 		want := []byte("0" + strings.Repeat("1", n) + "0")
 		want[1+k] = '0'
-		gs := jx.Run(map[string]string{"/t.jet": "{{ " + src + " }}"}, "/t.jet", mk(), nil, jx.NoEscape)
+		gs := jx.Run(map[string]string{"/t.jet": "{{ " + src + " }}", "/pipe.jet": `{{ "Q" | lower }}{{ return "ret" }}`}, "/t.jet", mk(), nil, jx.NoEscape)
 		c.Eval(1)
 		if gs.Failed() || gs.Out != string(want) {
 			c.Violation("c18:args:IsSet-positions:slot", "", fmt.Sprintf("%s: IsSet(-1..%d) = %s, want %s (argument %d is an unknown identifier, argument %d is the piped value)", src, n, gs, want, k, p))
@@ -444,7 +461,7 @@ func init() {
 	fw.Register(&fw.Property{
 		ID:        "C18",
 		Technique: "differential twins: the same program written with custom functions calling the Runtime/Arguments API and with template syntax must render identically (output, errors, block rendering log)",
-		Rule: "3/4 of the cases: a random program over the names x,y,z whose operations are emitted twice — Let/Set/SetOrLet/LetGlobal/Resolve/Context/YieldBlock called from jet.Funcs versus :=, =, identifiers, '.', {{yield b() ctx}} — nested up to 3 deep in if, range (2 iterations), block definitions, included templates (with/without context) and try; " +
+		Rule: "3/4 of the cases: a random program over the names x,y,z whose operations are emitted twice — Let/Set/SetOrLet/LetGlobal/Resolve/Context/YieldBlock called from jet.Funcs versus :=, =, identifiers, '.', {{yield b() ctx}} — nested up to 3 deep in if, range (2 iterations), block definitions, included templates (with/without context), try, and below blocks yielded with content (YieldBlock of a block that renders 'yield content'); " +
 			"every list first opens its scope so Let and := agree; Set on an undeclared name must fail in both forms; LetGlobal'd names are printed right after the call, after the enclosing constructs ended and at the end of the template; block bodies log each rendering; " +
 			"1/4: call shapes (plain, piped, slot at every index) with 1-3 arguments given to a reflected function and to jet.Funcs reading Get(i), NumOfArguments, IsSet(-1..n) and ParseInto: values and positions must match what the reflected function receives, incl. IsSet with an unknown identifier next to a slot; " +
 			"non-trivial = >=3 API features/contexts in one twin, or any argument shape; distinct by feature set / argument list",
